@@ -11,40 +11,47 @@ open Eru Eru.Book
 def fresh (capacity : NodeRes) : State :=
   { node := { capacity := capacity, usage := {} }, live := [] }
 
-/-- After any history of alloc / rollback-alloc / release (`drop`) / realloc (grow, shrink, bind,
+/-- After any history of alloc / rollback-alloc / release (`drop`) / rollback-of-release (`readd`:
+    calcium's remove and dissociate re-add the resources with Incr) / realloc (grow, shrink, bind,
     unbind, keep-bind — whatever the request) / rollback-realloc committed through the
     manager, on a node with or without NUMA topology, from any state in which the books are
     right: the recorded usage equals the sum of the live workloads' resources in total CPU,
     memory, every core's pieces and every NUMA node's memory.  Refused or failing operations
-    (insufficient resource, invalid request, validation error) are part of the histories. -/
-theorem usage_eq_sum_live (sched : Sched) (hs : SchedWF sched) (s : State) (h : Inv s) (ops : List Op) :
+    (insufficient resource, invalid request, validation error, another plugin failing in the commit)
+    are part of the histories.  `hops`: the resources named by `readd` operations are Go maps. -/
+theorem usage_eq_sum_live (sched : Sched) (hs : SchedWF sched) (s : State) (h : Inv s) (ops : List Op)
+    (hops : ∀ op ∈ ops, OpWF op) :
     Consistent (run sched s ops).node.usage (run sched s ops).live :=
-  (run_inv sched hs ops s h).cons
+  (run_inv sched hs ops hops s h).cons
 
 /-- the same statement with the decidable predicate the oracle evaluates on the
     implementation's numbers -/
-theorem usage_eq_sum_live_decidable (sched : Sched) (hs : SchedWF sched) (s : State) (h : Inv s) (ops : List Op) :
+theorem usage_eq_sum_live_decidable (sched : Sched) (hs : SchedWF sched) (s : State) (h : Inv s) (ops : List Op)
+    (hops : ∀ op ∈ ops, OpWF op) :
     consistentB (run sched s ops).node.usage (run sched s ops).live = true :=
-  (consistentB_iff _ _).2 (usage_eq_sum_live sched hs s h ops)
+  (consistentB_iff _ _).2 (usage_eq_sum_live sched hs s h ops hops)
 
 /-- … in particular from a freshly added node. -/
 theorem usage_eq_sum_live_fresh (sched : Sched) (hs : SchedWF sched) (capacity : NodeRes)
     (h1 : WF capacity.cpuMap) (h2 : WF capacity.numaMemory) (hv : Valid { capacity := capacity, usage := {} })
-    (ops : List Op) :
+    (ops : List Op) (hops : ∀ op ∈ ops, OpWF op) :
     Consistent (run sched (fresh capacity) ops).node.usage (run sched (fresh capacity) ops).live := by
-  apply usage_eq_sum_live sched hs
+  refine usage_eq_sum_live sched hs _ ?_ ops hops
   refine ⟨⟨h1, h2, WF_nil, WF_nil⟩, hv, (fun w hw => by cases hw), ?_, (fun u hu => by cases hu)⟩
   exact ⟨rfl, rfl, fun k => rfl, fun k => rfl⟩
 
 /-- The stored node stays valid along every history (no core over-used, NUMA memory within
     capacity), so the plugin never has to refuse a rollback. -/
-theorem node_stays_valid (sched : Sched) (hs : SchedWF sched) (s : State) (h : Inv s) (ops : List Op) :
+theorem node_stays_valid (sched : Sched) (hs : SchedWF sched) (s : State) (h : Inv s) (ops : List Op)
+    (hops : ∀ op ∈ ops, OpWF op) :
     Valid (run sched s ops).node :=
-  (run_inv sched hs ops s h).valid
+  (run_inv sched hs ops hops s h).valid
 
 /-- Rolling back an allocation restores the node's usage exactly: `RollbackAlloc` of the
     workloads returned by a successful `Alloc` is accepted and the usage afterwards equals the
-    usage before, on every component. -/
+    usage before, on every component.  This is about the *immediate* rollback (what calcium does,
+    under the node lock); a rollback separated from its operation by other operations is covered
+    through `usage_eq_sum_live` (`Consistent` before and after), not through equality of usages. -/
 theorem rollback_restores_alloc (sched : Sched) (hs : SchedWF sched) (ex : Extras) (n : NodeInfo) (hw : WFNode n) (hv : Valid n)
     (k : Int) (req : Req) (ws : List WorkloadRes) (n' : NodeInfo) (h : alloc sched ex n k req = .ok (ws, n')) :
     ∃ n'', release n' ws = .ok n'' ∧ UsageEq n''.usage n.usage ∧ n''.capacity = n.capacity := by
@@ -69,7 +76,8 @@ theorem rollback_restores_alloc (sched : Sched) (hs : SchedWF sched) (ex : Extra
           subst e1; subst e2
           exact incr_decr_restores n n'' hw hv ws' (calculateDeploy_wfw sched hs n k req ws' hcd) hset
 
-/-- Rolling back a re-allocation restores the node's usage exactly. -/
+/-- Rolling back a re-allocation restores the node's usage exactly (immediate rollback; see the
+    remark at `rollback_restores_alloc`). -/
 theorem rollback_restores_realloc (sched : Sched) (hs : SchedWF sched) (n : NodeInfo) (hw : WFNode n) (hv : Valid n)
     (origin : WorkloadRes) (ho : WFW origin) (req : Req) (newRes delta : WorkloadRes) (n' : NodeInfo)
     (h : realloc sched n origin req = .ok (newRes, delta, n')) :
@@ -114,15 +122,24 @@ theorem failed_commit_restores (n : NodeInfo) (hw : WFNode n) (hv : Valid n) (ws
     validation, or failing because another plugin fails in its commit — leaves usage and live
     set as they were; in particular usage = Σ live still holds (`usage_eq_sum_live` covers
     histories containing such operations, `Op.failing`). -/
-theorem failed_operation_leaves_usage (sched : Sched) (hs : SchedWF sched) (s : State) (h : Inv s) (op : Op)
+theorem failed_operation_leaves_usage (sched : Sched) (hs : SchedWF sched) (s : State) (h : Inv s) (op : Op) (hop : OpWF op)
     (hf : (step sched s op).2 = false) :
     UsageEq (step sched s op).1.node.usage s.node.usage ∧ (step sched s op).1.live = s.live :=
-  failed_step_unchanged sched hs s h op hf
+  failed_step_unchanged sched hs s h op hop hf
 
-theorem other_plugin_failure_restores (sched : Sched) (hs : SchedWF sched) (s : State) (h : Inv s) (op : Op) :
+theorem other_plugin_failure_restores (sched : Sched) (hs : SchedWF sched) (s : State) (h : Inv s) (op : Op) (hop : OpWF op) :
     (step sched s (.failing op)).2 = false ∧
     UsageEq (step sched s (.failing op)).1.node.usage s.node.usage ∧ (step sched s (.failing op)).1.live = s.live :=
-  failing_step_restores sched hs s h op
+  failing_step_restores sched hs s h op hop
+
+/-- Rolling back a release restores the node's usage exactly: re-adding (Incr) the resources
+    that a successful release (Decr) removed is accepted and the usage afterwards equals the
+    usage before the release, on every component (immediate rollback, as in calcium's remove
+    and dissociate). -/
+theorem rollback_restores_release (n : NodeInfo) (hw : WFNode n) (hv : Valid n) (ws : List WorkloadRes)
+    (hws : ∀ w ∈ ws, WFW w) (n' : NodeInfo) (h : release n ws = .ok n') :
+    ∃ n'', setNodeResourceUsage n' none ws true true = .ok n'' ∧ UsageEq n''.usage n.usage ∧ n''.capacity = n.capacity :=
+  decr_incr_restores n n' hw hv ws hws h
 
 /-- Group lemma: adding a resource to a usage and subtracting it again gives the same usage,
     with zero entries treated extensionally. -/
